@@ -97,9 +97,9 @@ CLAIMED.update({
                      "The 5 s bound, abort of the other operations and silence afterwards are searched by the C09 monitor on the real client (virtual time). Known finding F21. End to end (composed_no_success_after_cancel, composed_disconnect_first_in_write, composed_nothing_after_disconnect_in_write, composed_silence_after_disconnect): after a finished async_disconnect no publish/subscribe/unsubscribe completes successfully until async_run(); a DISCONNECT is alone in its write and nothing is written on the connection after it (Model/TraceDisc.lean on the write-level projection of every transcript). Composed model (DESIGN.md S.8): the end-to-end statement is ALSO a Lean theorem about every event list accepted by a labelled transition system of the client above the stream (Model/Trace.lean / TraceIn.lean / TraceContent.lean); the real client is tied to it by trace inclusion: every H-client transcript is replayed through the compiled model on every run (lib/trace_check.py), a refusal is a broken correspondence.",
                 note=COMMON_NOTE + CLIENT_NOTE, technique="Lean 4 theorems on do_write + lock-step; disconnect monitor on the real client under virtual time + composed observer model with end-to-end theorems, tied by trace inclusion of real-client transcripts", design="§5 C09", engine="h_sender,h_client"),
     "C12": dict(text="Proof (timing rules): the expressions compute_read_timeout, ping compute_wait_time and negotiated_keep_alive are translated from the source on every run; theorems: read time-out = 1500*K ms, ping period = K s, K = 0 => neither, negotiated = Server Keep Alive or configured. "
-                     "End to end (composed keep-alive model Model/TraceKA.lean: ping_op's timer, the sender's handling of the PINGREQ and the time-out of every read over a virtual clock, built on the translated expressions): at every moment the execution context has run dry on a running client with keep-alive K > 0, less than K s have passed since the timer was last armed (async_run, session refresh, end of the previous PINGREQ's write) or a write is in progress; keep-alive 0 => no PINGREQ in any accepted history; every read carries 1.5*K; tie: every timed transcript of the real client must be accepted by the model. "
+                     "End to end (composed keep-alive model Model/TraceKA.lean: ping_op's timer, the sender's handling of the PINGREQ and the time-out of every read over a virtual clock, built on the translated expressions): at every moment the execution context has run dry on a running client with keep-alive K > 0, less than K s have passed since the timer was last armed (async_run, session refresh, end of the previous PINGREQ's write) or a write is in progress; keep-alive 0 => no PINGREQ in any accepted history; every read carries 1.5*K; tie: every timed transcript of the real client must be accepted by the model. The expiry itself (Model/TraceRd.lean, the timed read of the real stream layer): the read timer gives a connection up only when a read with a limit is in progress and at least the limit has passed since it began (never earlier, never for keep-alive 0), and no pending read outlives its limit; tie: every timed H-stream transcript accepted, limits probed at the millisecond. "
                      "PINGREQ cadence and read time-outs of the real client are checked by the C12 monitor under virtual time; the timed read of the real read_op (abandon exactly at the limit, never earlier, never with keep-alive 0) by the C12 stream monitor on H-stream.",
-                note=COMMON_NOTE + CLIENT_NOTE + "read_op's parallel_group of read and timer is exercised, not modelled.", technique="translator + Lean 4 theorems (arithmetic rules; invariant over all timed histories of the composed keep-alive model) + trace-inclusion correspondence; virtual-time monitors on the real client and the real autoconnect_stream", design="§5 C12", engine="h_client,h_stream"),
+                note=COMMON_NOTE + CLIENT_NOTE + "read_op's parallel_group of read and timer is modelled by what it shows to an observer with a clock (Model/TraceRd.lean), not by its asio mechanics.", technique="translator + Lean 4 theorems (arithmetic rules; invariant over all timed histories of the composed keep-alive model) + trace-inclusion correspondence; virtual-time monitors on the real client and the real autoconnect_stream", design="§5 C12", engine="h_client,h_stream"),
     "C13": dict(text="Proof: flag machine (session_present / subscriptions_present, on_connack, update_session_state, SUBACK success) - for every history the number of session_expired reports equals the specification "
                      "(one per lost session with a successful subscription since the last report; idempotent per connection). Tied by abstract replay: the model's report count on the inputs read off each real-client transcript equals the reports actually delivered. End to end (composed_expired_reports_bounded): in every event list the composed inbound model accepts, the application is handed at most as many session_expired reports as are due; every H-client transcript is replayed through the model.",
                 note=COMMON_NOTE + CLIENT_NOTE, technique="Lean 4 induction over histories of the flag machine + abstract-replay correspondence on real-client transcripts", design="§5 C13", engine="h_client"),
